@@ -14,23 +14,28 @@ theorem inclusive_bridge (key : PySlice) (offset : Int) :
   obtain ⟨a, b, c⟩ := key
   cases a <;> cases b <;> cases c <;> simp [Gen.slice_to_inclusive_slice, sliceToInclusive]
 
-theorem ascending_bridge (key : PySlice) (size : Int) (h : key.step ≠ some 0) :
-    Gen.slice_to_ascending_slice key size = some (sliceToAscending key size) := by
+theorem ascending_bridge (key : PySlice) (size : Int) :
+    Gen.slice_to_ascending_slice key size = sliceToAscending key size := by
   obtain ⟨a, b, c⟩ := key
   cases c with
   | none => simp [Gen.slice_to_ascending_slice, sliceToAscending]
   | some st =>
-    have hst : st ≠ 0 := by simpa using h
-    have hna : ((st.natAbs : Nat) : Int) ≠ 0 := by omega
-    cases a <;> cases b <;>
-      simp [Gen.slice_to_ascending_slice, sliceToAscending] <;>
-      split <;> simp_all <;> split <;> simp_all
-
-/-- `slice(…, …, 0)` makes the Python function raise ZeroDivisionError (when the step-0 branch is
-    reached, i.e. always for step 0): the generated function returns `none`. -/
-theorem ascending_bridge_zero (a b : Option Int) (size : Int) :
-    Gen.slice_to_ascending_slice ⟨a, b, some 0⟩ size = none := by
-  cases a <;> cases b <;> simp [Gen.slice_to_ascending_slice]
+    by_cases hpos : st > 0
+    · simp [Gen.slice_to_ascending_slice, sliceToAscending, hpos]
+    · by_cases h1 : st = -1
+      · subst h1
+        cases a <;> cases b <;>
+          simp [Gen.slice_to_ascending_slice, sliceToAscending, normStart, normStop] <;>
+          (repeat' split) <;> (try simp_all) <;> (try subst_vars) <;> (try simp_all) <;> (try (repeat' split)) <;> (try subst_vars) <;> (try simp_all) <;> (try omega)
+      · by_cases h0 : st = 0
+        · subst h0
+          cases a <;> cases b <;>
+            simp [Gen.slice_to_ascending_slice, sliceToAscending, normStart, normStop] <;>
+            (repeat' split) <;> (try simp_all) <;> (try subst_vars) <;> (try simp_all) <;> (try (repeat' split)) <;> (try subst_vars) <;> (try simp_all) <;> (try omega)
+        · have hna : ((st.natAbs : Nat) : Int) ≠ 0 := by omega
+          cases a <;> cases b <;>
+            simp [Gen.slice_to_ascending_slice, sliceToAscending, normStart, normStop, hpos, h1, h0, hna] <;>
+            (repeat' split) <;> (try simp_all) <;> (try subst_vars) <;> (try simp_all) <;> (try (repeat' split)) <;> (try subst_vars) <;> (try simp_all) <;> (try omega)
 
 theorem cols_bridge (l : List Int) : Gen._cols_to_slice l = colsToSlice l := by
   match l with
